@@ -1,0 +1,64 @@
+//go:build verif
+
+package onoffpb
+
+// Machine-checked contracts for this package (comment-only; excluded from normal builds).
+
+//@ property C14
+//@ // ---- the server hands the request's masks and flags to the model unchanged, returns what the model returns, and labels
+//@ // every streamed change with the name the Pull request carried.  The model's methods are thin casts around
+//@ // resource.Value (C01/C04/C06); seen from the server they are opaque. ----
+//@ func (*Model).GetOnOff(opts) (res, err)
+//@   trusted
+//@   option opaque
+//@   modifies nothing
+//@ func (*Model).UpdateOnOff(value, opts) (res, err)
+//@   trusted
+//@   option opaque
+//@   modifies all
+//@ func (*Model).PullOnOff(ctx, opts) (ch)
+//@   trusted
+//@   option opaque
+//@   trusts ch != nil
+//@   modifies Bus.listeners     // registers a listener; nothing of the request or the server
+//@
+//@ func (*ModelServer).GetOnOff(ctx, req) (res, err)
+//@   requires recv != nil && recv.model != nil && req != nil
+//@   track WithReadMask
+//@   track GetOnOff
+//@   ensures [mask] calls(WithReadMask) == old(calls(WithReadMask)) + 1 && lastarg(WithReadMask, 0) == old(req.ReadMask)
+//@   ensures [forwarded] calls(GetOnOff) == old(calls(GetOnOff)) + 1 && lastarg(GetOnOff, 0) == old(recv.model) && len(lastarg(GetOnOff, 1)) == 1 && lastargelem(GetOnOff, 1, 0) == lastcall(WithReadMask)
+//@   ensures [answer] res == lastcall(GetOnOff, 0) && err == lastcall(GetOnOff, 1)
+//@
+//@ func (*ModelServer).UpdateOnOff(ctx, request) (res, err)
+//@   requires recv != nil && recv.model != nil && request != nil
+//@   track WithUpdateMask
+//@   track UpdateOnOff
+//@   ensures [mask] calls(WithUpdateMask) == old(calls(WithUpdateMask)) + 1 && lastarg(WithUpdateMask, 0) == old(request.UpdateMask)
+//@   ensures [forwarded] calls(UpdateOnOff) == old(calls(UpdateOnOff)) + 1 && lastarg(UpdateOnOff, 0) == old(recv.model) && lastarg(UpdateOnOff, 1) == old(request.OnOff) &&
+//@   |   len(lastarg(UpdateOnOff, 2)) == 1 && lastargelem(UpdateOnOff, 2, 0) == lastcall(WithUpdateMask)
+//@   ensures [answer] res == lastcall(UpdateOnOff, 0) && err == lastcall(UpdateOnOff, 1)
+//@
+//@ // the gRPC stream handed to a Pull method: sending a message and asking for the context do not touch the module's state
+//@ callback OnOffApi_PullOnOffServer.Send: modifies nothing
+//@ callback OnOffApi_PullOnOffServer.Context: modifies nothing
+//@
+//@ func (*ModelServer).PullOnOff(request, server) (err)
+//@   requires recv != nil && recv.model != nil && request != nil && !isnil(server)
+//@   track WithReadMask
+//@   track WithUpdatesOnly
+//@   track PullOnOff
+//@   track Send
+//@   letold name := request.Name
+//@   letold mask := request.ReadMask
+//@   letold uo := request.UpdatesOnly
+//@   ensures [options] calls(PullOnOff) == old(calls(PullOnOff)) + 1 && calls(WithReadMask) == old(calls(WithReadMask)) + 1 && calls(WithUpdatesOnly) == old(calls(WithUpdatesOnly)) + 1 &&
+//@   |   lastarg(WithReadMask, 0) == mask && lastarg(WithUpdatesOnly, 0) == uo && len(lastarg(PullOnOff, 2)) == 2 &&
+//@   |   lastargelem(PullOnOff, 2, 0) == lastcall(WithReadMask) && lastargelem(PullOnOff, 2, 1) == lastcall(WithUpdatesOnly)
+//@   loop 0:
+//@     invariant calls(PullOnOff) == old(calls(PullOnOff)) + 1 && calls(WithReadMask) == old(calls(WithReadMask)) + 1 && calls(WithUpdatesOnly) == old(calls(WithUpdatesOnly)) + 1
+//@     invariant lastarg(WithReadMask, 0) == mask && lastarg(WithUpdatesOnly, 0) == uo && len(lastarg(PullOnOff, 2)) == 2
+//@     invariant lastargelem(PullOnOff, 2, 0) == lastcall(WithReadMask) && lastargelem(PullOnOff, 2, 1) == lastcall(WithUpdatesOnly)
+//@     invariant request.Name == name && !isnil(server)
+//@     // every response sent so far carried exactly one change, labelled with the request's name
+//@     invariant calls(Send) > old(calls(Send)) ==> lastarg(Send, 1) != nil && len(lastarg(Send, 1).Changes) == 1 && lastarg(Send, 1).Changes[0] != nil && lastarg(Send, 1).Changes[0].Name == name
